@@ -156,6 +156,20 @@ func LoadIndex(idx index.Index, r io.Reader, opts ...Option) error {
 		// Seek to the next section by skipping the block.
 		// The section length includes the CID, so subtract it.
 		remainingSectionLen := int64(sectionLen) - int64(cidLen)
+		if remainingSectionLen > 0 {
+			// Seeking beyond the end of a seekable source succeeds: read the last byte of the
+			// block, so that a section that is not all there is not taken for a clean end.
+			if _, err = reader.Seek(remainingSectionLen-1, io.SeekCurrent); err != nil {
+				return err
+			}
+			if _, err = reader.ReadByte(); err != nil {
+				if err == io.EOF {
+					err = io.ErrUnexpectedEOF
+				}
+				return err
+			}
+			remainingSectionLen = 0
+		}
 		if sectionOffset, err = reader.Seek(remainingSectionLen, io.SeekCurrent); err != nil {
 			return err
 		}
